@@ -107,7 +107,7 @@ class Ctx(object):
             print("VIOLATION property=%s replay=%s" % (self.pid, path))
             print("  kind=%s %s" % (kind, json.dumps(detail, default=str)[:500]))
         elif os.environ.get("VERIF_ALLVIOL"):
-            print("  more: kind=%s %s" % (kind, json.dumps(detail, default=str)[:500]))
+            print("  more: kind=%s %s" % (kind, json.dumps(detail, default=str)[:int(os.environ.get("VERIF_ALLVIOL_LEN", "500"))]))
         elif len(self.violations) == 6:
             print("  (further violations counted, not listed)")
         sys.stdout.flush()
